@@ -13,5 +13,5 @@ for d in sorted(glob.glob('/verif/benign/C*/')):
     m = json.load(open(d + 'meta.json'))
     what = " ".join((m.get('summary') or '').split())[:160].replace('|', '/')
     rows.append("| %s | %s | %s |" % (n, "silent under all %d checks" % len(r.get('checks') or {}) if r.get('applies') and r.get('builds') and not bad else "ALARM " + json.dumps(bad), what))
-open('/verif/benign/RESULTS.md', 'w').write("# Benign changes: last run of all twenty quick checks against each\n\nWritten by benign_results.py from benign/*/benign.json (benign_run.sh). The run used the harness as committed just before the request-object expiry probe of C07 was added; C07 was then run once more against all 79 changes with the final harness (silent), and the two changes that had raised alarms (C08-P, C08-Q) and the re-cut C09-L were run again in full. After the last repair in /repo (969c626, F39) C11, C13 and C17 - the checks that got a probe with it - were run against all 79 changes once more (silent), and the four patches re-cut for that repair (C07-Q, C11-L, C11-Q, C17-K) in full.\n\n| Change | Result | What it changes |\n|---|---|---|\n" + "\n".join(rows) + "\n")
+open('/verif/benign/RESULTS.md', 'w').write("# Benign changes: last run of all twenty quick checks against each\n\nWritten by benign_results.py from benign/*/benign.json (benign_run.sh). The run used the harness as committed just before the request-object expiry probe of C07 was added; C07 was then run once more against all 79 changes with the final harness (silent), and the two changes that had raised alarms (C08-P, C08-Q) and the re-cut C09-L were run again in full. After the last repair in /repo (969c626, F39) C11, C13 and C17 - the checks that got a probe with it - were run against all 79 changes once more (silent), and the four patches re-cut for that repair (C07-Q, C11-L, C11-Q, C17-K) in full. Round 8 extended C17's cast (case-twin clients): C17 was run against all 79 changes again (silent); that pass showed that C17-P had not built since F39 (its earlier results had been carried forward), so it was re-cut against HEAD with F39 kept (suite passes) and run under all twenty checks (silent).\n\n| Change | Result | What it changes |\n|---|---|---|\n" + "\n".join(rows) + "\n")
 print(len(rows), "rows;", sum(1 for r in rows if 'silent' in r), "silent")
